@@ -215,6 +215,16 @@ func (f *Failover) Get(
 		return nil, unexpectedBackendError // Cache backend failed with unexpected error.
 	}
 
+	// Keeping expired value as a fallback for update failure, regardless of staleness.
+	staleValue := value
+
+	if staleValue == nil {
+		var errExpired ErrWithExpiredItem
+		if errors.As(err, &errExpired) {
+			staleValue = errExpired.Value()
+		}
+	}
+
 	// Check if update failed recently.
 	if err := f.recentlyFailed(ctx, key); err != nil {
 		keyLock.err = err
@@ -237,8 +247,8 @@ func (f *Failover) Get(
 					"key", key)
 			}
 
-			if value != nil && !f.config.FailHard {
-				return value, nil
+			if staleValue != nil && !f.config.FailHard {
+				return staleValue, nil
 			}
 		}
 
